@@ -10,7 +10,7 @@ use crate::model::mv::num;
 use proptest::prelude::*;
 use serde::{Deserialize, Serialize};
 
-pub const RULE: &str = "(a) call-site independence: definitions binding k and m (numbers, lists, closures), a function f all of whose free names are bound at its definition (plain, optional parameter, curried, defined inside a do-block, capturing another closure, parameters that reuse captured names, a parameter named like the function itself or `inputs`, record shorthand, a do-block in the middle of the body that rebinds a captured name which is read after it, functions re-entered while on the stack - directly, through a capture-free helper or a map callback - with frames in between that bind a captured name; the designed forms also carry the value the call must have), and a call f(args); the call is evaluated right after the definition and again inside every context of a grammar: IIFE whose parameters are named k / m / f's helpers, do-block shadowing k and m, callbacks of via / map / reduce / where / filter / sort_by whose parameters shadow, two- and three-deep call chains reusing the names, after failed redefinition attempts of k and m, with and without `inputs` carrying k and m. (b) arity: every parameter list with r required, o optional (r+o <= 4) and an optional rest parameter x argument counts 0..n+3, direct and through spread, against a positional binding model. Non-trivial = f captures at least one name and the context rebinds that name to a different value; distinct by (program, context).";
+pub const RULE: &str = "(a) call-site independence: definitions binding k and m (numbers, lists, closures), a function f all of whose free names are bound at its definition (plain, optional parameter, curried, defined inside a do-block, capturing another closure, parameters that reuse captured names, a parameter named like the function itself or `inputs`, record shorthand, a do-block in the middle of the body that rebinds a captured name which is read after it, functions re-entered while on the stack - directly, through a capture-free helper or a map callback - with frames in between that bind a captured name; closures over k bound to a local that is itself called k, parameters named inf / infinity / constants, a body reading `inputs`; the designed forms also carry the value the call must have), and a call f(args); the call is evaluated right after the definition and again inside every context of a grammar: IIFE whose parameters are named k / m / f's helpers, do-block shadowing k and m, callbacks of via / map / reduce / where / filter / sort_by whose parameters shadow, two- and three-deep call chains reusing the names, after failed redefinition attempts of k and m, with and without `inputs` carrying k and m. (b) arity: every parameter list with r required, o optional (r+o <= 4) and an optional rest parameter x argument counts 0..n+3, direct and through spread, against a positional binding model. Non-trivial = f captures at least one name and the context rebinds that name to a different value; distinct by (program, context).";
 pub const ASSUMPTIONS: &[&str] = &[
     "results are compared as values; failures are compared by status",
     "contexts come from a fixed grammar of context kinds",
@@ -60,6 +60,7 @@ fn contexts(call: &str, j1: &str, j2: &str) -> Vec<(&'static str, Vec<String>, S
     vec![
         ("direct-again", vec![], c.to_string(), 0),
         ("iife-shadowing-params", vec![], format!("((k, m) => {})({}, {})", c, j1, j2), 0),
+        ("iife-shadowing-inputs", vec![], format!("((inputs, f1) => {})({}, {})", c, j1, j2), 0),
         ("iife-shadowing-helpers", vec![], format!("((g, mk, loc, a) => {})({}, {}, {}, {})", c, j1, j2, j1, j2), 0),
         ("iife-param-named-f", vec![], format!("((x, y) => {})({}, {})", c, j1, j2), 0),
         ("do-block-shadowing", vec![], format!("do {{\n  k = {}\n  m = {}\n  g = {}\n  return {}\n}}", j1, j2, j1, c), 0),
@@ -97,6 +98,9 @@ impl Check for Closures {
                     let sess = Sess::new();
                     if with_inputs {
                         sess.set_inputs(&[("k".into(), junk1.clone()), ("m".into(), junk2.clone()), ("f".into(), junk1.clone())]);
+                    } else {
+                        // as in the CLI, `inputs` is always bound (to an empty record without inputs)
+                        sess.set_inputs(&[]);
                     }
                     for d in defs {
                         sess.eval_src(d)?;
@@ -140,7 +144,7 @@ impl Check for Closures {
                 let (j1, j2) = (junk1.to_source(true), junk2.to_source(true));
                 for (name, setup, expr_src, wrap) in contexts(call, &j1, &j2) {
                     for (variant, with_inputs, redefine) in [("plain", false, false), ("inputs", true, false), ("redefine", false, true)] {
-                        if variant != "plain" && !(name == "direct-again" || name == "iife-shadowing-params" || name == "call-chain-2") {
+                        if variant != "plain" && !(name == "direct-again" || name == "iife-shadowing-params" || name == "iife-shadowing-inputs" || name == "call-chain-2") {
                             continue;
                         }
                         let s = match build(with_inputs, redefine) {
@@ -272,7 +276,7 @@ fn site_case(tape: &[u16], j1: MV, j2: MV) -> Case {
             sc.fns.push("m".into());
         }
     }
-    let form = t.pick(14);
+    let form = t.pick(20);
     let mut expect: Option<String> = None;
     let mut body_scope = sc.clone();
     let mut call = "f(3)".to_string();
@@ -350,6 +354,32 @@ fn site_case(tape: &[u16], j1: MV, j2: MV) -> Case {
             defs.push("f = n => if n == 0 then k else apply(f, 99)".into());
             call = "f(1)".into();
             expect = Some("k".into());
+        }
+        14 => {
+            // a closure over k is bound to a do-block local that is also called k
+            defs.push("mk = () => (x => x + k)".into());
+            defs.push("f = x => do {\n  k = mk()\n  return k(x)\n}".into());
+            expect = Some("3 + k".into());
+        }
+        15 => {
+            // an anonymous closure over k handed to a helper that binds it to its own local k
+            defs.push("apply = h => do {\n  k = h\n  return k(1)\n}".into());
+            defs.push("f = x => apply(y => k + y + x)".into());
+            expect = Some("k + 1 + 3".into());
+        }
+        16 => {
+            defs.push("f = x => do {\n  k = y => k + y\n  return k(x)\n}".into());
+            expect = Some("k + 3".into());
+        }
+        17 => {
+            // reads the inputs record it was defined under
+            defs.push("f = x => [k, typeof(inputs), x]".into());
+            expect = Some("[k, \"record\", 3]".into());
+        }
+        18 => {
+            // parameters named like the built-in constants
+            defs.push(["f = inf => [inf, k]", "f = infinity => [infinity, k]", "f = (a, inf?) => [a, inf, k]", "f = constants => [constants, k]"][t.pick(4)].into());
+            expect = Some(if defs.last().unwrap().contains("(a, inf?)") { "[3, null, k]".into() } else { "[3, k]".into() });
         }
         _ => {
             // re-entered through a callback of map, inside a function whose parameter shadows
